@@ -328,6 +328,92 @@ Definition remove_peer (P : peer) : peer :=
      last_sent := last_sent P; kprev := None; kcur := None; knext := None;
      endpoint := endpoint P; rx := rx P; tx := tx P; lh := lh P; staged := [] |}.
 
+
+(* ------------------------------------- event inside the response window *)
+(* RoutineHandshake, MessageResponseType: ConsumeMessageResponse and BeginSymmetricSession
+   are two separately locked steps of the handshake worker.  In between (where the worker
+   logs "Received handshake response") the retransmit timer / SendHandshakeInitiation or a
+   second handshake worker can run.  wact = what runs in that window. *)
+Inductive wact :=
+| WInitiate (p k : N)            (* SendHandshakeInitiation(false) for peer p (k callers) *)
+| WShiftInitiate (p d : N)       (* VerifShiftHandshakeTimes(p, d), then SendHandshakeInitiation(false) *)
+| WMsg (src2 : N) (m2 : msg).    (* another datagram goes through a second handshake worker *)
+
+(* ConsumeMessageResponse succeeded: state := responseConsumed, remoteIndex := sender;
+   SetEndpointFromPacket *)
+Definition with_response_consumed (P : peer) (src : N) (m : msg) : peer :=
+  {| p_conf := p_conf P; p_psk := p_psk P; hs_state := 4; hs_local := hs_local P;
+     hs_remote := m_sender m; hs_seq := hs_seq P; last_ts := last_ts P; last_cons := last_cons P;
+     last_sent := last_sent P; kprev := kprev P; kcur := kcur P; knext := knext P;
+     endpoint := src; rx := rx P; tx := tx P; lh := lh P; staged := staged P |}.
+
+Definition add_rx (P : peer) (n : N) : peer :=
+  {| p_conf := p_conf P; p_psk := p_psk P; hs_state := hs_state P; hs_local := hs_local P;
+     hs_remote := hs_remote P; hs_seq := hs_seq P; last_ts := last_ts P; last_cons := last_cons P;
+     last_sent := last_sent P; kprev := kprev P; kcur := kcur P; knext := knext P;
+     endpoint := endpoint P; rx := rx P + n; tx := tx P; lh := lh P; staged := staged P |}.
+
+(* phase 1: the tests of recv + consume_response; Some p = the response is consumed for peer p *)
+Definition resp_phase1 (st : state) (m : msg) : option N :=
+  match gate (wire_type m) (m_len m) with
+  | Some KResp =>
+      if negb (mac1_ok KResp m) then None else
+      if loaded st then None else
+      match lookup (table st) (m_receiver m) with
+      | None => None
+      | Some e =>
+          if negb (t_hs e) then None else
+          let p := t_peer e in
+          let P := peers st p in
+          if negb (hs_state P =? 1) then None else
+          if negb (transcript_ok P p m) then None else Some p
+      end
+  | _ => None
+  end.
+
+(* phase 2: the in-window action, with the functions of the sequential events *)
+Definition wact_step (st : state) (now oidx : N) (w : wact) : state * list out :=
+  match w with
+  | WInitiate p _ =>
+      if p_conf (peers st p) then send_initiation st now oidx p (peers st p) else (st, [])
+  | WShiftInitiate p d =>
+      if p_conf (peers st p) then send_initiation st now oidx p (shift_peer (peers st p) d) else (st, [])
+  | WMsg src2 m2 => recv st now src2 oidx m2
+  end.
+
+(* phase 3, handshake still responseConsumed: BeginSymmetricSession (initiator), timers,
+   SendKeepalive / staged packets — the tail of consume_response *)
+Definition begin_initiator (st : state) (p src : N) (m : msg) : state * list out :=
+  let P := peers st p in
+  let t1 := tswap (table st) (hs_local P) in
+  let t2 := match knext P with
+            | Some _ => tdelete_kp t1 (kcur P)
+            | None => t1
+            end in
+  let t3 := tdelete_kp t2 (kprev P) in
+  (set_table (set_peer st p (with_initiator_session P src m)) t3,
+   map (fun l => OTrans src p (m_sender m) l) (flush_lens P)).
+
+(* The response m is consumed, w happens, then the worker goes on: rxBytes, and
+   BeginSymmetricSession — which fails with "invalid state" (nothing more happens)
+   unless the handshake is still in state responseConsumed.  When the response is
+   not consumable the event is the sequential one: recv of m, then w. *)
+Definition resp_window (st : state) (now src oidx : N) (m : msg) (w : wact) : state * list out :=
+  match resp_phase1 st m with
+  | None =>
+      let r1 := recv st now src oidx m in
+      let r2 := wact_step (fst r1) now oidx w in
+      (fst r2, snd r1 ++ snd r2)
+  | Some p =>
+      let st1 := set_peer st p (with_response_consumed (peers st p) src m) in
+      let r2 := wact_step st1 now oidx w in
+      let st2 := fst r2 in
+      if hs_state (peers st2 p) =? 4 then
+        let r3 := begin_initiator st2 p src m in
+        (fst r3, snd r2 ++ snd r3)
+      else (set_peer st2 p (add_rx (peers st2 p) (m_len m)), snd r2)
+  end.
+
 Inductive body :=
 | BMsg (src : N) (m : msg)         (* datagram from address src *)
 | BTun (p inner : N)               (* TUN packet routed to peer p, inner length *)
@@ -338,6 +424,9 @@ Inductive body :=
                                       already running (parked on the static identity, as during a private_key
                                       update): timersStop waits for it, so its initiation is created and sent
                                       first and everything it created is wiped afterwards *)
+| BRespWindow (src : N) (m : msg) (w : wact)
+                                   (* datagram m (a response) from src whose handshake worker is overtaken by w
+                                      between ConsumeMessageResponse and BeginSymmetricSession *)
 | BInitiate (p k : N).             (* k concurrent calls of SendHandshakeInitiation(false) for peer p (the timer /
                                       keep-fresh / TUN callers): they are serialised by handshake.mutex, the first
                                       sets lastSentHandshake and the others then fail the spacing test, so the
@@ -364,6 +453,7 @@ Definition step (st : state) (e : event) : state * list out :=
             nseq := nseq st1; loaded := loaded st1 |}, snd r)
       else (st, [])
   | BLoad on => ({| peers := peers st; table := table st; nseq := nseq st; loaded := on |}, [])
+  | BRespWindow src m w => resp_window st (e_now e) src (e_oidx e) m w
   end.
 
 (* Initial state: peers as configured through IpcSet, then Up at time now0. *)
